@@ -24,6 +24,8 @@ import (
 
 	"github.com/tochemey/goakt/v4/actor"
 	"github.com/tochemey/goakt/v4/eventstream"
+	"github.com/tochemey/goakt/v4/internal/commands"
+	"github.com/tochemey/goakt/v4/reentrancy"
 	"github.com/tochemey/goakt/v4/remote"
 	"github.com/tochemey/goakt/v4/verifharness/vtrace"
 )
@@ -88,6 +90,34 @@ func (t *dlTarget) Receive(ctx *actor.ReceiveContext) {
 	t.w.Emit(map[string]any{"ev": "handled", "id": id, "n": 0, "snd": "", "rcv": ""})
 }
 
+// DoReq makes the actor Q send a message with ctx.Request: it travels in an AsyncRequest envelope.
+type DoReq struct {
+	To   *actor.PID
+	V    int64
+	Done chan error
+}
+
+type dlRequester struct{}
+
+func (dlRequester) PreStart(*actor.Context) error { return nil }
+func (dlRequester) PostStop(*actor.Context) error { return nil }
+func (dlRequester) Receive(ctx *actor.ReceiveContext) {
+	m, ok := ctx.Message().(*DoReq)
+	if !ok {
+		return
+	}
+	call := ctx.Request(m.To, wrapperspb.Int64(m.V))
+	var err error
+	if call == nil {
+		err = actor.VerifContextErr(ctx)
+		if err == nil {
+			err = errors.New("request refused")
+		}
+		ctx.Err(nil)
+	}
+	m.Done <- err
+}
+
 type dlStats struct {
 	Behaviours int   `json:"behaviours"`
 	Steps      int   `json:"steps"`
@@ -101,15 +131,17 @@ type dlWorld struct {
 	w      *vtrace.Writer
 	sub    eventstream.Subscriber
 	sender *actor.PID
+	reqr   *actor.PID
 	dl     *actor.PID
 	port   int
 	// per history
-	pid     *actor.PID
-	tname   string
-	taddr   string
-	seen    [][3]any // dead letters of this history (id, snd, rcv)
-	handled []int
-	base    int64
+	pid      *actor.PID
+	tname    string
+	taddr    string
+	seen     [][3]any // dead letters of this history (id, snd, rcv)
+	handled  []int
+	base     int64
+	ntimeout int
 }
 
 func (x *dlWorld) wd() time.Duration { return 10 * time.Second * slow }
@@ -123,6 +155,10 @@ func (x *dlWorld) nameOfSender(p actor.Path) string {
 		return "S"
 	case p.Name() == "remotesender":
 		return "R"
+	case p.Name() == "remotesender2":
+		return "R2"
+	case x.reqr != nil && p.Name() == x.reqr.Name():
+		return "Q"
 	case p.Name() == x.sys.NoSender().Name():
 		return "N"
 	}
@@ -152,14 +188,27 @@ func (x *dlWorld) drain() int {
 		if !ok {
 			continue
 		}
-		id := -1
-		if v, ok := d.Message().(*wrapperspb.Int64Value); ok {
+		id, env := -1, 0
+		switch v := d.Message().(type) {
+		case *wrapperspb.Int64Value:
 			id = int(v.GetValue() / 2)
-		} else {
+		case *commands.AsyncRequest: // a ctx.Request envelope: the payload is inside
+			if p, ok := v.Message.(*wrapperspb.Int64Value); ok {
+				id, env = int(p.GetValue()/2), 1
+			}
+		}
+		if id < 0 {
 			continue // dead letters of other traffic (none expected)
 		}
 		snd, rcv := x.nameOfSender(d.Sender()), x.nameOfReceiver(d.Receiver())
-		x.w.Emit(map[string]any{"ev": "dead", "id": id, "n": 0, "snd": snd, "rcv": rcv})
+		if strings.Contains(d.Reason(), "request timed out") {
+			// filed by an Ask that gave up (not one of the drop causes): counted, accounted separately
+			x.w.Emit(map[string]any{"ev": "deadt", "id": id, "n": env, "snd": snd, "rcv": rcv})
+			x.ntimeout++
+			n++
+			continue
+		}
+		x.w.Emit(map[string]any{"ev": "dead", "id": id, "n": env, "snd": snd, "rcv": rcv})
 		x.seen = append(x.seen, [3]any{id, snd, rcv})
 		n++
 	}
@@ -181,6 +230,10 @@ func newDLWorld(port int, w *vtrace.Writer) *dlWorld {
 	if x.sender, err = sys.Spawn(context.Background(), "localsender", idleActor{}, actor.WithLongLived()); err != nil {
 		fatal(err)
 	}
+	if x.reqr, err = sys.Spawn(context.Background(), "dlrequester", dlRequester{}, actor.WithLongLived(),
+		actor.WithReentrancy(reentrancy.New(reentrancy.WithMode(reentrancy.AllowAll)))); err != nil {
+		fatal(err)
+	}
 	if x.sub, err = sys.Subscribe(); err != nil {
 		fatal(err)
 	}
@@ -197,7 +250,7 @@ func (x *dlWorld) newTarget(idx int, t *dlTarget, cap int) {
 	x.pid, x.taddr = pid, actor.VerifAddressOf(pid)
 	waitFor(x.wd(), func() bool { return actor.VerifIdleOf(pid) && actor.VerifIdleOf(x.dl) })
 	x.drain()
-	x.seen, x.handled = nil, nil
+	x.seen, x.handled, x.ntimeout = nil, nil, 0
 	x.base = x.sys.Metric(context.Background()).DeadlettersCount()
 }
 
@@ -219,6 +272,8 @@ func dlReplay(bfile, tfile string, port int) {
 		var cur *dlDelivery
 		nid, nent, nenq := 0, 0, 0
 		running := true
+		var asks []context.CancelFunc
+		var askWG sync.WaitGroup
 		settle := func() {
 			if cur == nil && nent < nenq {
 				select {
@@ -241,16 +296,47 @@ func dlReplay(bfile, tfile string, port int) {
 			}
 			msg := wrapperspb.Int64(v)
 			var err error
-			if o.Snd == "S" {
+			snd, kind := o.Snd, "tell"
+			switch o.Snd {
+			case "S":
 				err = x.sender.Tell(bg, x.pid, msg)
-			} else {
+			case "Q": // ctx.Request from the actor Q: an AsyncRequest envelope
+				kind = "req"
+				done := make(chan error, 1)
+				if err = actor.Tell(bg, x.reqr, &DoReq{To: x.pid, V: v, Done: done}); err == nil {
+					select {
+					case err = <-done:
+					case <-time.After(x.wd()):
+						err = errors.New("requester did not answer")
+					}
+				}
+			case "A": // actor.Ask: returns only when its context is cancelled at the end of the history
+				snd, kind = "N", "ask"
+				if !running {
+					_, err = actor.Ask(bg, x.pid, msg, time.Second)
+				} else {
+					cctx, cancel := context.WithCancel(bg)
+					asks = append(asks, cancel)
+					mlen0, nseen0 := x.pid.VerifMailboxLen(), len(x.seen)
+					askWG.Add(1)
+					go func() {
+						defer askWG.Done()
+						_, _ = actor.Ask(cctx, x.pid, msg, time.Hour)
+					}()
+					// the enqueue has happened once the message is queued, inside the handler, or dead-lettered
+					waitFor(x.wd(), func() bool {
+						x.drain()
+						return x.pid.VerifMailboxLen() > mlen0 || len(t.enter) > 0 || len(x.seen) > nseen0
+					})
+				}
+			default:
 				err = actor.Tell(bg, x.pid, msg)
 			}
 			if err != nil {
-				w.Emit(map[string]any{"ev": "reject", "id": id, "n": 0, "snd": o.Snd, "rcv": "T"})
+				w.Emit(map[string]any{"ev": "reject", "id": id, "n": 0, "snd": snd, "rcv": "T", "k": kind})
 				return false
 			}
-			w.Emit(map[string]any{"ev": "accept", "id": id, "n": 0, "snd": o.Snd, "rcv": "T"})
+			w.Emit(map[string]any{"ev": "accept", "id": id, "n": 0, "snd": snd, "rcv": "T", "k": kind})
 			return true
 		}
 		for _, o := range b {
@@ -285,7 +371,7 @@ func dlReplay(bfile, tfile string, port int) {
 				if o.Rcv == "M" {
 					rcv = x.remoteAddr("missing" + strconv.Itoa(bi))
 				}
-				w.Emit(map[string]any{"ev": "accept", "id": nid, "n": 0, "snd": "R", "rcv": o.Rcv})
+				w.Emit(map[string]any{"ev": "accept", "id": nid, "n": 0, "snd": "R", "rcv": o.Rcv, "k": "remote"})
 				if err := actor.VerifDeliverRemoteTell(x.sys, x.remoteAddr("remotesender"), rcv, wrapperspb.Int64(v)); err != nil {
 					fatal("remote tell shim:", err)
 				}
@@ -296,16 +382,21 @@ func dlReplay(bfile, tfile string, port int) {
 				}
 				settle()
 			case "Batch":
-				var rcvs []string
+				var snds, rcvs []string
 				var pls []any
 				for i := 1; i <= o.N; i++ {
 					nid++
+					sname, slabel := "remotesender", "R"
+					if i%2 == 0 { // the coalescer batches per destination: members come from different senders
+						sname, slabel = "remotesender2", "R2"
+					}
+					snds = append(snds, x.remoteAddr(sname))
 					rcvs = append(rcvs, fmt.Sprintf("goakt://faraway@127.0.0.1:%d/faraway%d", x.port+1, i))
 					pls = append(pls, wrapperspb.Int64(int64(nid*2)))
-					w.Emit(map[string]any{"ev": "accept", "id": nid, "n": 0, "snd": "R", "rcv": "X"})
+					w.Emit(map[string]any{"ev": "accept", "id": nid, "n": 0, "snd": slabel, "rcv": "X", "k": "batch"})
 				}
 				line["id"] = nid - o.N + 1
-				if err := actor.VerifCoalescedFailure(x.sys, "127.0.0.1:"+strconv.Itoa(x.port+1), x.remoteAddr("remotesender"), rcvs, pls, errors.New("endpoint unreachable")); err != nil {
+				if err := actor.VerifCoalescedFailureFrom(x.sys, "127.0.0.1:"+strconv.Itoa(x.port+1), snds, rcvs, pls, errors.New("endpoint unreachable")); err != nil {
 					fatal("coalesced failure shim:", err)
 				}
 				// the fan-out goroutine works asynchronously: wait for the n publications (bounded; once a few batches
@@ -381,8 +472,18 @@ func dlReplay(bfile, tfile string, port int) {
 			}
 			return !running || actor.VerifIdleOf(x.pid)
 		})
-		x.waitDeadletterIdle()
-		x.drain()
+		// the Asks of this history give up now (each files its time-out dead letter, which is counted but is not a drop)
+		for _, cancel := range asks {
+			cancel()
+		}
+		askDone := make(chan struct{})
+		go func() { askWG.Wait(); close(askDone) }()
+		select {
+		case <-askDone:
+		case <-time.After(x.wd()):
+			quiet = false
+		}
+		waitFor(x.wd(), func() bool { x.waitDeadletterIdle(); x.drain(); return x.ntimeout >= len(asks) })
 		total := x.sys.Metric(bg).DeadlettersCount() - x.base
 		w.Emit(map[string]any{"ev": "count", "id": total, "n": -1, "snd": "", "rcv": ""})
 		qi := 0
@@ -421,7 +522,7 @@ func dlStress(histories int, seed int64, tfile string, port int) {
 		var wg sync.WaitGroup
 		nsenders := 3 + rng.Intn(4)
 		for s := 0; s < nsenders; s++ {
-			kind := rng.Intn(5)
+			kind := rng.Intn(6)
 			n := 10 + rng.Intn(40)
 			srng := rand.New(rand.NewSource(rng.Int63()))
 			wg.Add(1)
@@ -449,23 +550,36 @@ func dlStress(histories int, seed int64, tfile string, port int) {
 						} else {
 							naccepted.Add(1)
 						}
-						w.Emit(map[string]any{"ev": ev, "id": id, "n": 0, "snd": snd, "rcv": "T"})
+						w.Emit(map[string]any{"ev": ev, "id": id, "n": 0, "snd": snd, "rcv": "T", "k": "tell"})
+					case 5: // ctx.Request from the actor Q (AsyncRequest envelope)
+						done := make(chan error, 1)
+						err := actor.Tell(bg, x.reqr, &DoReq{To: x.pid, V: v, Done: done})
+						if err == nil {
+							err = <-done
+						}
+						ev := "accept"
+						if err != nil {
+							ev = "reject"
+						} else {
+							naccepted.Add(1)
+						}
+						w.Emit(map[string]any{"ev": ev, "id": id, "n": 0, "snd": "Q", "rcv": "T", "k": "req"})
 					case 2:
 						naccepted.Add(1)
-						w.Emit(map[string]any{"ev": "accept", "id": id, "n": 0, "snd": "R", "rcv": "T"})
+						w.Emit(map[string]any{"ev": "accept", "id": id, "n": 0, "snd": "R", "rcv": "T", "k": "remote"})
 						_ = actor.VerifDeliverRemoteTell(x.sys, x.remoteAddr("remotesender"), x.taddr, wrapperspb.Int64(v))
 					case 3:
 						naccepted.Add(1)
-						w.Emit(map[string]any{"ev": "accept", "id": id, "n": 0, "snd": "R", "rcv": "M"})
+						w.Emit(map[string]any{"ev": "accept", "id": id, "n": 0, "snd": "R", "rcv": "M", "k": "remote"})
 						_ = actor.VerifDeliverRemoteTell(x.sys, x.remoteAddr("remotesender"), x.remoteAddr("missing"+strconv.Itoa(h)), wrapperspb.Int64(v))
 					case 4:
 						id2 := int(ids.Add(1))
-						w.Emit(map[string]any{"ev": "accept", "id": id, "n": 0, "snd": "R", "rcv": "X"})
-						w.Emit(map[string]any{"ev": "accept", "id": id2, "n": 0, "snd": "R", "rcv": "X"})
+						w.Emit(map[string]any{"ev": "accept", "id": id, "n": 0, "snd": "R", "rcv": "X", "k": "batch"})
+						w.Emit(map[string]any{"ev": "accept", "id": id2, "n": 0, "snd": "R2", "rcv": "X", "k": "batch"})
 						naccepted.Add(2)
 						far := fmt.Sprintf("goakt://faraway@127.0.0.1:%d/faraway1", x.port+1)
-						_ = actor.VerifCoalescedFailure(x.sys, "127.0.0.1:1", x.remoteAddr("remotesender"), []string{far, far},
-							[]any{wrapperspb.Int64(int64(id * 2)), wrapperspb.Int64(int64(id2 * 2))}, errors.New("endpoint unreachable"))
+						_ = actor.VerifCoalescedFailureFrom(x.sys, "127.0.0.1:1", []string{x.remoteAddr("remotesender"), x.remoteAddr("remotesender2")},
+							[]string{far, far}, []any{wrapperspb.Int64(int64(id * 2)), wrapperspb.Int64(int64(id2 * 2))}, errors.New("endpoint unreachable"))
 					}
 					if srng.Intn(3) == 0 {
 						runtime.Gosched()
